@@ -42,7 +42,12 @@ def one(i):
                     k = m.group(1) if m else "?"
                     clauses[k] = clauses.get(k, 0) + 1
             row[c] = {"rc": r.returncode, "violations": sum(clauses.values()), "clauses": clauses}
-        return i, {"applies": True, "checks": row, "detected": any(v["rc"] == 1 and v["violations"] for v in row.values())}
+        res = {"applies": True, "checks": row, "detected": any(v["rc"] == 1 and v["violations"] for v in row.values())}
+        if not res["detected"] and os.path.exists(os.path.join(d, "demo.py")):
+            # does the change still break the property on today's tree?  (a later fix: commit may have made it harmless)
+            r = sh("/venv/bin/python", os.path.join(d, "demo.py"), cwd=w, env=dict(os.environ, PYTHONPATH=w))
+            res["demo_rc_with_change"] = r.returncode
+        return i, res
     finally:
         sh("git", "-C", "/repo", "worktree", "remove", "--force", w)
 
